@@ -207,7 +207,7 @@ func (r *Reader) feed(src io.Reader) {
 					slice = append(leftover, slice...)
 					leftover = []byte{}
 				}
-				if (err == nil || len(slice) > 0) && r.pusher(slice) {
+				if r.pusher(slice) {
 					atomic.StoreInt32(&r.event, int32(EvtReadNew))
 				}
 			} else {
@@ -224,7 +224,7 @@ func (r *Reader) feed(src io.Reader) {
 		}
 
 		if err == io.EOF {
-			leftover = append(leftover, buf...)
+			// What is left of buf is in leftover already
 			break
 		}
 
